@@ -56,7 +56,7 @@ EXTRA_INSTANCE_CONFIGS = {"ascii_11x13": _small_env}
 class M(Model):
     ENV = "PacMan"
     # AsciiGenerator is documented as deterministic: the same map on every reset
-    DETERMINISTIC_CONFIGS = ("tNone", "t7", "t3", "t1", "t40", "ascii_11x13", "small30", "small200", "tunnel60", "tunnel120")
+    DETERMINISTIC_CONFIGS = ("tNone", "t7", "t3", "t1", "t40", "ascii_11x13", "small30", "small200", "tunnel60", "tunnel120", "tall90")
 
     def __init__(self, b):
         super().__init__(b)
